@@ -8,7 +8,7 @@
    2. [flt_emit R f : sqlcond]: the mirror of  ResolveFilter (internal/storage/ledger/resource_*.go,
       utils.go:filterAccountAddress, transactions.go:filterAccountAddressOnTransactions) + query.Builder.Build
       (go-libs pkg/query/expression.go), producing a small SQL-condition AST, and [flt_validate] the mirror of
-      common/resource.go:validateFilters (+ the errors / panics ResolveFilter itself produces);
+      common/resource.go:validateFilters (+ the errors ResolveFilter itself produces);
    3. [flt_eval : sqlcond -> frow -> option tri]: SQL three-valued evaluation of that AST on one dataset row
       ([None] = the statement fails: "more than one row returned by a subquery used as an expression").
 
@@ -199,7 +199,7 @@ Definition sat_leaf_log (o : fop) (k : fkey) (v : fval) (l : log_ent) : bool :=
   match k with
   | KId => sat_num o (fl_id l) v
   | KDate => sat_time o (fl_date l) v
-  | KType => match o with OIn => false | _ => sat_str o (Some (fl_type l)) v end
+  | KType => sat_str o (Some (fl_type l)) v
   | _ => false
   end.
 
@@ -446,7 +446,7 @@ Definition emit_leaf (R : fresource) (o : fop) (k : fkey) (v : fval) : sqlcond :
   | RAgg, KAddress => emit_addr o v
   | RLog, KId => emit_num NId o v
   | RLog, KDate => emit_time NDate o v
-  | RLog, KType => match o with OIn => CFalse | _ => emit_str SType o v end
+  | RLog, KType => emit_str SType o v
   | RLog, _ => CFalse
   | _, KMeta key => emit_meta o key v
   | _, KMetadata => emit_meta_exists v
@@ -493,8 +493,8 @@ Definition op_allowed (t : ftype) (o : fop) : bool :=
   | TyString => match o with OMatch | OLike | OIn => true | _ => false end
   | TyDate | TyNum => is_cmp_op o
   | TyBool => match o with OMatch => true | _ => false end
-  | TyMapStr => match o with OMatch | OLike | OIn | OExists => true | _ => false end
-  | TyMapNum => is_cmp_op o || match o with OExists => true | _ => false end
+  | TyMapStr => match o with OMatch | OLike | OExists => true | _ => false end   (* TypeMap.Operators: no $in on maps *)
+  | TyMapNum => is_cmp_op o                                                      (* ... and $exists only on string maps *)
   end.
 Definition value_ok (t : ftype) (o : fop) (v : fval) : bool :=
   match t with
@@ -503,7 +503,7 @@ Definition value_ok (t : ftype) (o : fop) (v : fval) : bool :=
   | TyNum | TyMapNum => match v with VInt _ => true | _ => false end
   | TyBool => match v with VBool _ => true | _ => false end
   end.
-Inductive fverdict := FvOk | FvInvalid | FvPanic.
+Inductive fverdict := FvOk | FvInvalid.
 Definition is_addr_key (k : fkey) : bool :=
   match k with KAddress | KAccount | KSource | KDestination => true | _ => false end.
 Definition leaf_verdict (R : fresource) (o : fop) (k : fkey) (v : fval) : fverdict :=
@@ -513,16 +513,15 @@ Definition leaf_verdict (R : fresource) (o : fop) (k : fkey) (v : fval) : fverdi
     if negb (op_allowed t o) then FvInvalid
     else if negb (value_ok t o v) then FvInvalid
     else match t, o, v with
-         | TyMapNum, OExists, _ => FvPanic                       (* ConvertOperatorToSQL("$exists"): panic("unreachable") *)
          | TyString, OIn, VStrs l =>
            if is_addr_key k then (if existsb is_partial l then FvInvalid else FvOk)   (* assetAddressArray *)
-           else match R, k with RLog, KType => FvPanic | _, _ => FvOk end           (* ConvertOperatorToSQL("$in") *)
+           else FvOk
          | _, _, _ => FvOk
          end
   end.
 Definition verdict_join (a b : fverdict) : fverdict :=
   match a with FvOk => b | _ => a end.
-(* validateFilters walks all leaves first (so an invalid leaf anywhere wins over a panic in Build); then Build
+(* validateFilters walks all leaves first (so a statically invalid leaf anywhere wins); then Build
    resolves the leaves left to right *)
 Fixpoint flt_leaves (f : filter) : list (fop * fkey * fval) :=
   match f with
@@ -566,7 +565,7 @@ Definition row_of (e : fentity) : frow :=
    canPushAddressFilterToLateral (isNodeSafeForLateral on the JSON form), buildAddressFilterForLateral:
    when some address filter is partial (aggregated without PIT: when metadata or a partial address is filtered and
    the key `address` is used) and the shape is judged safe, the dataset is inner-joined with the accounts matching the
-   OR of all STRING-valued address filters ($in arrays are not collected). *)
+   OR of ALL address filters of the query (string values and the elements of $in arrays). *)
 Definition json_addr_key (k : fkey) : bool := match k with KAddress | KAccount => true | _ => false end.
 Fixpoint contains_addr (f : filter) : bool :=
   match f with
@@ -586,7 +585,10 @@ Fixpoint safe_lateral (inside_not : bool) (f : filter) : bool :=
          && forallb (safe_lateral false) l
   end.
 Definition collect_addrs (f : filter) : list string :=
-  flat_map (fun okv => match okv with (_, k, VStr s) => if json_addr_key k then [s] else [] | _ => [] end) (flt_leaves f).
+  flat_map (fun okv => match okv with
+                       | (_, k, VStr s) => if json_addr_key k then [s] else []
+                       | (_, k, VStrs l) => if json_addr_key k then l else []      (* $in arrays: exact addresses *)
+                       | _ => [] end) (flt_leaves f).
 Definition uses_key (p : fkey -> bool) (f : filter) : bool := existsb (fun okv => p (snd (fst okv))) (flt_leaves f).
 Definition is_meta_key (k : fkey) : bool := match k with KMeta _ | KMetadata => true | _ => false end.
 Definition flt_prefilter (R : fresource) (pit : bool) (f : filter) : option (list string) :=
@@ -610,7 +612,7 @@ Definition flt_dataset (R : fresource) (pit : bool) (f : filter) (es : list fent
   end.
 
 (* ------------------------------------------------------------------ list / count at model level *)
-Inductive fresult := FrOk (sel : list fentity) | FrInvalid | FrCardinality | FrPanic.
+Inductive fresult := FrOk (sel : list fentity) | FrInvalid | FrCardinality.
 
 (* the faithful model of  SELECT … FROM dataset WHERE <emit f>: every row is evaluated; one failing row fails the statement *)
 Fixpoint select_rows (c : sqlcond) (es : list fentity) : option (list fentity) :=
@@ -624,7 +626,6 @@ Fixpoint select_rows (c : sqlcond) (es : list fentity) : option (list fentity) :
 Definition flt_list (R : fresource) (pit : bool) (f : filter) (es : list fentity) : fresult :=
   match flt_validate R f with
   | FvInvalid => FrInvalid
-  | FvPanic => FrPanic
   | FvOk => match select_rows (flt_emit R f) (flt_dataset R pit f es) with Some sel => FrOk sel | None => FrCardinality end
   end.
 Definition flt_count (R : fresource) (pit : bool) (f : filter) (es : list fentity) : option nat :=
